@@ -167,4 +167,61 @@ static CaseResult run_case(Tape &t, const dif::CaseOpt &opt = dif::CaseOpt())
 	return r;
 }
 
+// Handshake steps answered honestly, but in front of many honest answers travels a reply that fits the waiting step in only ONE
+// respect -- the right DNS id under another step's name, or the right name under a wrong id -- and carries a valid but different
+// payload for that step (another challenge and user id, other tunnel addresses, another codec name, another fragment size).
+// "Replies that do not match its recent queries are ignored": the client must finish the handshake with the honest values.
+static CaseResult handshake_spoof_case(Tape &t)
+{
+	CaseResult r;
+	scn::Config c;
+	c.qtype = 1 + (int)t.below(7);
+	c.downenc = (int)t.pick({3, 1, 1, 1, 1, 1});
+	c.frag = t.chance(1, 2) ? -1 : t.range(50, 1000);
+	c.lazy = t.chance(1, 3) ? 0 : 1;
+	c.raw_mode = false;
+	c.cli_seed = t.u32() | 1;
+	scn::Session s(c);
+	ScriptServer srv; srv.domain = c.domain; srv.password = Bytes(c.password.begin(), c.password.end());
+	srv.seed = t.u32(); srv.userid = (int)t.below(16);
+	srv.login_reply = "10.0.0.1-10.0.0.2-1130-27";
+	srv.attach();
+	uint32_t p_spoof = (uint32_t)t.range(200, 900);
+	int n_spoof = 0, n_badid = 0, n_badname = 0; int at[S_NSTEPS] = {0};
+	srv.policy = [&](ScriptServer &S, const refproto::Query &q, const sim::Datagram &dg, int step) -> bool {
+		if (step == S_P || step == S_DATA || step == S_OTHER) return false;
+		if (t.below(1000) >= p_spoof) return false;
+		Bytes p; char enc = 'T';
+		switch (step) {
+		case S_V: { uint32_t sd = S.seed ^ 0x5a5a5a5a; p = Bytes{'V', 'A', 'C', 'K', (uint8_t)(sd >> 24), (uint8_t)(sd >> 16), (uint8_t)(sd >> 8), (uint8_t)sd, (uint8_t)((S.userid + 5) & 15)}; break; }
+		case S_L: { std::string l = "10.9.9.1-10.9.9.2-1400-24"; p.assign(l.begin(), l.end()); enc = S.downenc; break; }
+		case S_I: p = Bytes{'I', 203, 0, 113, 7}; break;
+		case S_S: { std::string l = "Base32"; p.assign(l.begin(), l.end()); enc = S.downenc; break; }
+		case S_O: { std::string l = "BADCODEC"; p.assign(l.begin(), l.end()); enc = S.downenc; break; }
+		case S_N: p = Bytes{0, 9}; enc = S.downenc; break;
+		case S_R: { p = Bytes{0, 7, 107, 1, 2, 3, 4}; enc = S.downenc; break; }
+		default: { p.assign(DCC1, DCC1 + 48); p[5] ^= 0x40; break; }   // codec tests: a corrupted pattern
+		}
+		bool badid = t.chance(1, 2);
+		std::string name = q.name; uint16_t id = q.id;
+		if (badid) { id = (uint16_t)(q.id + 1 + t.below(60000)); n_badid++; }
+		else { static const char OTHER[] = "vlizsoyrn"; char ch = OTHER[t.below(9)]; if (tolower((unsigned char)name[0]) == ch) ch = ch == 'v' ? 'z' : 'v'; name[0] = ch; n_badname++; }
+		S.reply(dg, refproto::make_answer(id, name, q.qtype, p, enc, 1, 2));
+		n_spoof++; at[step]++;
+		return false;   // the honest answer follows
+	};
+	s.start_client(0);
+	bool up = s.wait_handshake(0, 150);
+	std::string steps; for (int k = 0; k < S_NSTEPS; k++) if (at[k]) steps += fmt(" %s:%d", STEPNAME[k], at[k]);
+	std::string cmds; for (auto &cmd : s.cli[0]->system_calls) cmds += cmd + " ; ";
+	r.render = c.describe() + fmt(" | half-matching replies in front of honest answers: %d (wrong id %d, wrong name %d;%s ) handshake=%d commands: %s", n_spoof, n_badid, n_badname, steps.c_str(), (int)up, cmds.substr(0, 300).c_str());
+	if (sim::W.livelock) r.fail("C06:no-return-to-select", "the client did not return to select()\n" + r.render);
+	else if (!up) r.fail("C06:half-matching-reply-used", "the handshake failed although every step got its honest answer; a reply matching the waiting step only in id or only in name was not ignored\n" + r.render + "\n" + s.cli[0]->log.substr(s.cli[0]->log.size() > 600 ? s.cli[0]->log.size() - 600 : 0));
+	else if (cmds.find("10.9.9.") != std::string::npos || cmds.find("10.0.0.2") == std::string::npos) r.fail("C06:half-matching-reply-used", "the client configured its interface from a login reply that did not match its query\n" + r.render);
+	r.nontrivial = n_spoof >= 3;
+	r.cls("handshake-half-matching-replies");
+	for (int k = 0; k < S_NSTEPS; k++) if (at[k]) r.cls(std::string("half-match-at:") + STEPNAME[k]);
+	return r;
+}
+
 } // namespace c06
